@@ -251,7 +251,7 @@ func HarnessC18Roles() {
 	case 2:
 		f.datatable = vx.NondetStringIn("datatable", 2, "01 ")
 		f.role = []string{"", "main"}[vx.Choose("trole2", 2)]
-		f.cellRole = []string{"", "row", "cell"}[vx.Choose("crole2", 3)]
+		f.cellRole = []string{"", "row", "cell", "ROW", "GridCell", "Main"}[vx.Choose("crole2", 6)]
 	case 3: // the role-bearing descendant is a nested table element
 		f.nested, f.nestedRole = true, true
 		f.cellRole = vx.NondetStringIn("cellrole", maxRole, c18RoleAlphabet)
